@@ -199,17 +199,21 @@ def _shard(pid, tier, seed, shard, nshards, examples, no_shrink):
                   phases=phases, print_blob=False)
         @given(strat_f(tier))
         def test(case):
+            if holder.get('timeout') is not None:
+                raise AssertionError('timeout')  # do not shrink non-terminating cases: end quickly
             out = _run_one(mod, case, known)
             if holder.get('failed') is None:
                 st.add(case, out)
             if not out.ok and not out.known:
                 holder['failed'] = dict(case=case, detail=out.detail, phase='generate')
+                if 'did not terminate within' in out.detail:
+                    holder['timeout'] = holder['failed']
                 raise AssertionError(out.detail)
 
         try:
             test()
         except AssertionError:
-            st.failure = holder['failed']  # last failing case = shrunk case
+            st.failure = holder.get('timeout') or holder['failed']  # last failing case = shrunk case
         except hypothesis.errors.Unsatisfiable as e:
             return dict(harness_error=f'strategy unsatisfiable: {e}', shard=shard)
         except Exception:
